@@ -440,4 +440,82 @@ def aggRun {α} (pname : String) (values : List α) (ops : List (Op α)) (s : Sc
   let r := aggOps (key pname) [[(key pname, .opened values (-1) false)], s] ops
   (r.1.getLastD s, r.2.1, r.2.2)
 
+/-! ## re-entrant histories: the cursor's query calls a user-defined function that works on cursors
+
+  cursor.go `Cursor.Open`: refuse a pseudo cursor, refuse an open cursor (`c.view != nil`), THEN evaluate the
+  query, and only after a successful evaluation assign `c.view / c.index / c.fetched`.  So for everything the
+  evaluation itself executes — a user-defined function called by the query, `reps` times (once from a LIMIT
+  clause, once per row from a WHERE clause), whose body runs in a child block of its own — the cursor that is
+  being opened IS STILL CLOSED: FETCH / IS IN RANGE / COUNT of it are the "closed" error (which ends the
+  evaluation: the OPEN fails with that error and the cursor stays closed), IS OPEN is FALSE, CLOSE is the
+  no-op it always is on a closed cursor, DISPOSE removes the name (the OPEN then completes on an object no
+  name denotes any more).  Statements on OTHER cursors act as they would in front of the OPEN.
+
+  `Cursor.Open` holds the cursor's (non-re-entrant) mutex during the evaluation; a method reached from the
+  evaluation must therefore not wait for that mutex — Props/C16.lean states this over the
+  regenerated access traces (`Gen.CursorLocks.trace`). -/
+
+/-- index of the first block that knows the key -/
+def depthOf {α} (st : Stack α) (k : String) : Option Nat :=
+  match st with
+  | [] => none
+  | b :: rest =>
+    match lookup b k with
+    | some _ => some 0
+    | none => (depthOf rest k).map (· + 1)
+
+/-- `update` in the d-th block (nothing happens when that block no longer knows the key) -/
+def updateAt {α} (st : Stack α) (d : Nat) (k : String) (c : CState α) : Stack α :=
+  match st, d with
+  | [], _ => []
+  | b :: rest, 0 => update b k c :: rest
+  | b :: rest, d + 1 => b :: updateAt rest d k c
+
+/-- the function's body, once per call, each call in a fresh child block; stops at the first error -/
+def runReps {α} (st : Stack α) (body : List (Op α)) : Nat → Stack α × List (Res α) × Bool
+  | 0 => (st, [], false)
+  | r + 1 =>
+    match runOps ([] :: st) body with
+    | (st1, rs, true) => (st1.tail, rs, true)
+    | (st1, rs, false) =>
+      let rr := runReps st1.tail body r
+      (rr.1, rs ++ rr.2.1, rr.2.2)
+
+/-- `OPEN n` where evaluating the cursor's query (result: `rows`) calls, `reps` times, a function with the
+    given body.  Trace: the results of the body's statements, then `ok` — or the error that ended it all. -/
+def openRe {α} (st : Stack α) (n : String) (rows : List α) (reps : Nat) (body : List (Op α)) :
+    Stack α × List (Res α) × Bool :=
+  match depthOf st (key n), lookupS st (key n) with
+  | some d, some .closed =>
+    match runReps st body reps with
+    | (st1, rs, true) => (st1, rs, true)
+    | (st1, rs, false) => (updateAt st1 d (key n) (.opened rows (-1) false), rs ++ [.ok], false)
+  | _, some (.opened _ _ _) => (st, [.err .alreadyOpen], true)
+  | _, _ => (st, [.err .undeclared], true)
+
+/-! ## concurrent fetchers
+
+  A user-defined function that FETCHes from a cursor of an outer scope is evaluated by several goroutines at
+  once when the calling query has 160 rows or more (--cpu > 1).  `Cursor.Fetch` moves the pointer AND reads
+  the row inside one critical section, so every FETCH is one atomic `fetch` step of the model; a run of k
+  clients is a schedule: the list of the clients in the order in which their FETCH NEXT took the mutex. -/
+
+/-- the atomic FETCH NEXT steps of a schedule: every event is (client, what its FETCH returned) -/
+def runSched {α κ} (c : CState α) (sched : List κ) : CState α × List (κ × Option α) :=
+  match sched with
+  | [] => (c, [])
+  | k :: rest =>
+    match c.fetch .next with
+    | .error _ => (c, [])
+    | .ok (c', r) =>
+      let rr := runSched c' rest
+      (rr.1, (k, r) :: rr.2)
+
+/-- the rows handed out, in the order of the schedule -/
+def handedOut {α κ} (ev : List (κ × Option α)) : List α := ev.filterMap (·.2)
+
+/-- the rows one client received -/
+def receivedBy {α κ} [DecidableEq κ] (k : κ) (ev : List (κ × Option α)) : List α :=
+  handedOut (ev.filter (fun e => e.1 = k))
+
 end Csvq.Cursor
